@@ -1531,7 +1531,17 @@ class Controller:
         '''
         self._send_hci_command_status(hci.HCI_ErrorCode.SUCCESS, command.op_code)
 
-        self.send_lmp_packet(command.bd_addr, lmp.LmpNameReq(0))
+        try:
+            self.send_lmp_packet(command.bd_addr, lmp.LmpNameReq(0))
+        except InvalidArgumentError:
+            # Nobody answers at that address
+            self.send_hci_packet(
+                hci.HCI_Remote_Name_Request_Complete_Event(
+                    status=hci.HCI_ErrorCode.PAGE_TIMEOUT_ERROR,
+                    bd_addr=command.bd_addr,
+                    remote_name=b'',
+                )
+            )
 
         return None
 
